@@ -246,7 +246,10 @@ RULE = ("`params` family: (a) typed random expression trees of harness/terms_fam
         "random keyword contexts; (b) random statements of generic Query / SQLLiteQuery: SELECT with joins+ON, sub-queries in "
         "FROM / JOIN / IN, WHERE, GROUP BY, HAVING, ORDER BY, LIMIT/OFFSET; multi-row INSERT, INSERT..SELECT; UPDATE..SET (raw "
         "values and expressions)..WHERE; DELETE; set operations of 2-3 SELECTs; each rendered with one of the five collector "
-        "classes (or none); a malformed stream (empty criteria, CASE without WHEN). Compared with the model: text AND collector "
+        "classes (or none); OBJECT SHARING: the very same Python object at several places of one statement (one query object as "
+        "several set-operation operands a+b+b, one sub-query object in FROM and as IN container, one term object in select "
+        "list / GROUP BY / HAVING / ORDER BY, one criterion object in WHERE and in a CASE; plus a random 30% of ordinary statements "
+        "built with structurally equal parts shared); a malformed stream (empty criteria, CASE without WHEN). Compared with the model: text AND collector "
         "contents. Non-trivial = at least two collected values; distinct by structural hash of (input, class).")
 TRUSTED = [
     "harness/props/C06.py builds the same term/statement on pypika and as a Gallina value; canonicalises collected values to tagged JSON",
@@ -1067,6 +1070,10 @@ def corpus():
                     "s": ["select", _sel([xs, ys], where=["t", ys], groupby=[xs], having=["t", ys], orderby=[[xs, False]])]})
         out.append({"kind": "stmt", "dialect": "sqlite", "sty": sty, "share": True,
                     "s": ["select", _sel([["case", [[ys, Sv("big")]], Sv("small"), None]], where=["t", ys])]})
+        # ORDER BY of a set operation repeating a result column that contains a literal
+        e1 = ["arith", "add", F("a"), I(1), None]
+        out.append({"kind": "stmt", "dialect": "sqlite", "sty": sty,
+                    "s": ["setop", False, _sel([e1]), [["UNION", _sel([e1], frm="u")]], [[e1, True]], None, None]})
         # an integer constant in ORDER BY / GROUP BY: select-list position inline, constant when bound
         out.append({"kind": "stmt", "dialect": "sqlite", "sty": sty,
                     "s": ["select", _sel([I(0), I(2), ["basic", "gte", I(2), F("x1"), None]], frm="u", orderby=[[I(3), False]])]})
@@ -1351,7 +1358,11 @@ def oracle(case, outcome):
         d = exec_differs(case, sty, text, P_, params, inline)
         if d:
             pos = positional_ints(case["s"])
-            if pos:
+            if "does not match any column in the result set" in d:
+                # ORDER BY of a compound select must repeat a result column: `"a"+1 ... ORDER BY "a"+1` does, `"a"+? ... ORDER BY "a"+?` does not
+                viol("expression", "order by", "identity-lost-in-compound-select",
+                     "the ORDER BY expression of a set operation equals a result column inline, but not once its literals are placeholders: " + d)
+            elif pos:
                 # SQL reads a literal integer in ORDER BY / GROUP BY as a select-list position; a bound parameter is a constant
                 viol("int", pos[0], "positional-reference", "an integer constant in %s is a column position inline but a constant "
                      "expression when bound: %s" % (pos[0].upper(), d))
